@@ -33,6 +33,13 @@ def jobs(tier):
     return js
 
 
+def sys_jobs(hs, tier):
+    sj = [wmmlib.sys_job(hs, "sysbb", 0, 1, "l1,l2,l3,l4,l5"), wmmlib.sys_job(hs, "sysbb", 0, 2, "l1,l2,l3,l4"), wmmlib.sys_job(hs, "sys", 0, 1, "l1,l2,l3,l4,l5,l6,l7,l8,l9,l10")]
+    if tier != "quick":
+        sj += [wmmlib.sys_job(hs, "sysbb", 0, 2, "l1,l2,l3,l4,l5,l6,l7", deadline=1500), wmmlib.sys_job(hs, "sysbb", 1, 1, "l1,l2,l3,l4", "l1,l2,l3,l4", deadline=1500)]
+    return sj
+
+
 def run(ctx):
     ctx.rule = ("end to end on the real logger with 1024-byte queues (bounded/unbounded-at-maximum, blocking/dropping): "
                 "histories of 0-3 earlier statements (36 / 244 / 494 bytes), fully consumed or consumed as the schedule "
@@ -64,9 +71,7 @@ def run(ctx):
     # whole system on a 128-byte blocking bounded queue (and the unbounded one at its 256-byte maximum): real log calls that
     # block, real backend polls on demand; a call still waiting after them is the violation
     hs = wmmlib.build_sys()
-    sj = [wmmlib.sys_job(hs, "sysbb", 0, 1, "l1,l2,l3,l4,l5"), wmmlib.sys_job(hs, "sysbb", 0, 2, "l1,l2,l3,l4"), wmmlib.sys_job(hs, "sys", 0, 1, "l1,l2,l3,l4,l5,l6,l7,l8,l9,l10")]
-    if ctx.tier != "quick":
-        sj += [wmmlib.sys_job(hs, "sysbb", 0, 2, "l1,l2,l3,l4,l5,l6,l7", deadline=1500), wmmlib.sys_job(hs, "sysbb", 1, 1, "l1,l2,l3,l4", "l1,l2,l3,l4", deadline=1500)]
+    sj = sys_jobs(hs, ctx.tier)
     wmmlib.run_sys(ctx, sj)
     ctx.assumptions.append("liveness is expressed as: with the backend polling, the blocked call must return before the system reaches a state in which no actor can act (virtual time is advanced twice before calling it a stall)")
 
